@@ -109,6 +109,10 @@ def check_access(res, alg, mv, expected, ctx, case, repro):
             V('map', 'map() result', {k: 2 * v for k, v in exp.items()}, m1)
         if f1 != {k: v for k, v in exp.items() if v > 11} or f2 != {k: v for k, v in exp.items() if k % 2 == 1}:
             V('filter', 'filter() result', {k: v for k, v in exp.items() if v > 11}, f1)
+        # filter() without argument uses the algebra's simp_func as predicate and keeps the stored values as they are
+        f0 = dict(mv.filter().items())
+        if f0 != {k: v for k, v in exp.items() if v}:
+            V('filter:default', 'filter() without argument', {k: v for k, v in exp.items() if v}, f0)
     except Exception as e:
         V('map-filter', f'map/filter raises {type(e).__name__}: {e}', '', repr(e))
 
@@ -319,5 +323,17 @@ def run_shard(shard):
                                           case, 'ValueError', dict(mv.items()), head + f"print(alg.multivector({{{k1}: 1}}))"))
                 except Exception:
                     pass
+        # a custom simp_func (tolerance predicate): filter() keeps exactly the coefficients it accepts, unchanged
+        res.evals += 1
+        alg2 = make_algebra(cfg, graded=graded, simp_func=lambda v: abs(v) > 11)
+        keys2 = tuple(alg2.canon2bin.values()) if graded else tuple(alg2.canon2bin.values())[:3]
+        try:
+            mv2 = alg2.multivector(values=[10.5 + j for j in range(len(keys2))], keys=keys2)
+            got = dict(mv2.filter().items())
+            want = {k: 10.5 + j for j, k in enumerate(keys2) if 10.5 + j > 11}
+            if got != want:
+                res.violate(violation(f'filter:custom-simp_func:{G}', f'{name}: filter() with a custom simp_func', case, want, got))
+        except Exception as ex:
+            res.violate(violation(f'filter:custom-simp_func:raises:{G}', f'{name}: filter() with a custom simp_func raises {type(ex).__name__}: {ex}', case, '', repr(ex)))
         res.sample({'config': name, 'grade_selections': 2 ** (d + 1) - 1, 'convenience_constructors': len(conv)})
     return res.asdict()
